@@ -103,6 +103,14 @@ theorem C15_counter_never_panics (c : UInt32) (r : Bool) :
       have := c.toNat_lt
       exact ⟨by simpa using hov, by omega⟩
 
+/-- serialising a validity date (MSO / stored document) never panics, whatever year the shift to
+UTC lands in -/
+theorem C15_validity_date_never_panics (y : Int) : validityYearToUtc y ≠ .panic := by
+  unfold validityYearToUtc
+  split
+  · simp
+  · split <;> simp
+
 /-- every site of the generated inventory has a justification, and every site whose justification
 is "modelled" is one of the sites the theorems above speak about -/
 theorem C15_inventory_justified (s : PanicSite) :
@@ -126,6 +134,7 @@ theorem C15_pinned_okp_panics (crv : OKPCurve) (x : Bytes) : encodedPointPinned 
 theorem C15_pinned_deviceKey_panics :
     deviceKeyCoordinatesPinned (.ec2 .P384 (List.replicate 48 1) (.value (List.replicate 48 2))) = .panic := by decide
 theorem C15_pinned_storedScalar_panics : storedScalarPinned [] = .panic := by decide
+theorem C15_pinned_validity_date_panics : validityYearToUtcPinned 10000 = .panic := by decide
 theorem C15_pinned_counter_panics : nextCounterPinned (2 ^ 32 - 1) = .panic := by decide
 
 /-! non-vacuity: the accepting branches are inhabited -/
